@@ -220,6 +220,9 @@ def render_item(it, at):
         render_args(it["sig"], it["args"], at, it["split"], None, False)
         if it.get("tail") is not None:
             render_item(it["tail"], at)
+        if it.get("again"):
+            at.append("\\" + it["helper"])
+            at.append("\\relax")
     else:  # pragma: no cover
         raise ValueError(k)
 
@@ -687,8 +690,12 @@ class Gen(object):
             if not join_atoms(probe).strip() and K_XA_EMPTY in KNOWN:
                 self.note_excluded("expandafter-over-empty-macro")
             else:
-                node = dict(node, k="xcall", helper=helper, split=split)
+                # half of the time the helper is used again after the call: \\expandafter must not
+                # have changed what the macro it expanded means (second occurrence)
+                node = dict(node, k="xcall", helper=helper, split=split, again=self.i(0, 1) == 1)
                 self.features.add("has-expandafter")
+                if node["again"]:
+                    self.features.add("expandafter-helper-used-again")
         if name in ALIASES:
             self.features.add("call-through-alias")
         if any(p["delim"] for p in sig.get("params", [])) or sig.get("prefix"):
